@@ -73,6 +73,41 @@ def runBoolReq (r : BoolReq) (ar : Arith) : Except Fail RunOut :=
   | "PP", [a], [b] => polyPoly ar r.cfg a b r.op
   | _, _, _ => .error (.fuel "bad pairing")
 
+/-! ### range probe
+The model's orientation test is the exact sign; the real code's `robust::orient2d` is exact only while no
+product under- or overflows.  Operand coordinates are range-checked up front (`mpInRange`), but the sweep can
+manufacture an extreme coordinate itself (`nextafter(0.0)` = 2^-1074 after an intersection at x = 0).  When
+the two answers differ the driver replays the sweep step by step and reports whether such a coordinate was
+created; the run is then outside the modelled range (counted as skipped), not a disagreement. -/
+
+def extremeQ (q : Rat) : Bool :=
+  let a := if q < 0 then -q else q
+  q ≠ 0 && (a < pow2 (-400) || a > pow2 400)
+
+def arenaExtremeFrom (a : Arena) (start : Nat) : Bool :=
+  (List.range (a.size - start)).any (fun i => let e := a[start + i]!; extremeQ e.point.x || extremeQ e.point.y)
+
+def probeExtreme (rq : BoolReq) : Bool :=
+  let f := fillQueue rq.a rq.b rq.op
+  match f.sbbox, f.cbbox with
+  | some sb, some cb =>
+    let rightbound := rmin sb.maxx cb.maxx
+    let rec go : Nat → Nat → SwSt → Bool
+      | 0, seen, st => arenaExtremeFrom st.arena seen
+      | fuel + 1, seen, st =>
+        if arenaExtremeFrom st.arena seen then true else
+        let seen := st.arena.size
+        match Heap.pop (evLe st.arena) st.heap with
+        | none => false
+        | some (event, h) =>
+          let st := { st with heap := h, popped := st.popped + 1 }
+          match sweepStep rq.ar rq.cfg rq.op rightbound sb.maxx st event with
+          | .error _ => false
+          | .ok (true, st) => arenaExtremeFrom st.arena seen
+          | .ok (false, st) => go fuel seen st
+    go (rq.cfg.budget + 1) 0 { arena := f.fq.arena, heap := f.fq.heap }
+  | _, _ => false
+
 def answerBool (r : BoolReq) : String :=
   if !(mpInRange r.prec r.a && mpInRange r.prec r.b) then "SKIP-RANGE" else
   showOutcome (runBoolReq r r.ar)
